@@ -450,6 +450,11 @@ pub fn run(ctx: &Ctx) -> i32 {
             Err(e) => report.inconclusive(&format!("cannot run cargo for the generated crate: {e}")),
         }
     }
+    if std::env::var("VERIF_C12_PREBUILD").is_ok() {
+        // setup: only warm the dependency build of the generated crates
+        println!("C12 prebuild: {} crate(s) built", bins.len());
+        return if bins.is_empty() { 2 } else { 0 };
+    }
     for chunk in bins.chunks(4) {
         let children: Vec<_> = chunk
             .iter()
